@@ -586,12 +586,17 @@ def copyfile(file1, file2):
     if issamefile(file1, file2):
         return
 
+    # copy to a temporary name beside file2 and rename it into place: file2 is replaced in one step
+    tmp = "%s.tmp%d" % (file2, os.getpid())
     try:
-        os.unlink(file2)
-    except OSError:
-        pass
-
-    shutil.copy2(file1, file2)
+        shutil.copy2(file1, tmp)
+        os.rename(tmp, file2)
+    except Exception:
+        try:
+            os.unlink(tmp)
+        except OSError:
+            pass
+        raise
 
 
 #-=-=-=-=-=-=-=-=-=-=-=-=-=-=-=-=-=-=-=-=-=-=-=-=-=-=-=-=-=-=-=-=-=-=-=-=-=-=-=-
